@@ -44,6 +44,11 @@ REPLAY_SH = ("#!/bin/sh\n# rebuilds this module with llgo (-O0) from $VERIF_REPO
              "exec python3 %s/gen/c19_run.py \"$(dirname \"$0\")\"\n" % core.V)
 
 
+def violate(name, files, summary):
+    chk.violation(name, files, summary)
+    os.chmod(os.path.join(chk.violations[-1]["replay"], "replay.sh"), 0o755)
+
+
 def build(d, exe):
     rc, so, se = core.llgo_build(w, llgo, d, exe, extra_env={"GOMAXPROCS": "2"}, timeout=2400)
     return rc, so + se
@@ -58,53 +63,53 @@ def replay_files(files, meta, extra=None):
     return out
 
 
-# ------------------------------------------------------------------ probes of the findings (run first, on every run)
+# ------------------------------------------------------------------ probes of the findings (first two jobs of every run)
 
-def run_probes():
-    jobs = [("probe-a", gen.probe_program(), ["p1", "p2", "p3", "p4"]), ("probe-b", gen.probe_typecache_program(), ["p5"])]
+PROBE_JOBS = [("probe-a", gen.probe_program(), ["p1", "p2", "p3", "p4"]), ("probe-b", gen.probe_typecache_program(), ["p5"])]
 
-    def one(j):
-        tag, prog, units = j
-        d = w.sub(tag)
-        meta = {"probe": True, "probe_units": units, "expected": prog["expected"]}
-        run.write_program(d, prog["files"], meta)
-        exe = os.path.join(d, "p_llgo.bin")
-        rc, log = build(d, exe)
-        res = {}
-        if rc == 0:
-            for u in units:
-                r, _ = run.run_llgo(d, exe, tag=u, extra={"C19_PROBE": u})
-                got = dict(run.parse_R(r.err)).get(u)
-                ok = r.kind == "exit" and r.rc == 0 and got == prog["expected"][u]
-                res[u] = (ok, "%s rc=%s, printed %s, expected %s%s" % (
-                    r.kind, r.rc, run.undump(got) if got is not None else "<nothing>", run.undump(prog["expected"][u]),
-                    "" if r.kind == "exit" and r.rc == 0 else "\n" + "\n".join(l for l in r.err.split("\n") if not l.startswith("R "))[-600:]),
-                    r.kind == "timeout")
-        return tag, prog, units, meta, rc, log, res
-    for tag, prog, units, meta, rc, log, res in core.pmap(one, jobs, workers=2):
+
+def probe_job(j):
+    tag, prog, units = j
+    d = w.sub(tag)
+    meta = {"probe": True, "probe_units": units, "expected": prog["expected"]}
+    run.write_program(d, prog["files"], meta)
+    exe = os.path.join(d, "p_llgo.bin")
+    rc, log = build(d, exe)
+    res = {}
+    if rc == 0:
         for u in units:
-            fid = PROBE_OF[u]
-            chk.cov["evaluations"] += 1
-            if rc == -999:
-                chk.inconclusive += 1
-                continue
-            if rc != 0:
-                ok, why, tmo = False, "llgo cannot build the probe program:\n" + log[-1200:], False
-            else:
-                ok, why, tmo = res[u]
-            if tmo:
-                chk.inconclusive += 1
-                continue
-            if ok:
-                continue
-            if chk.is_open(fid):
-                chk.known(fid, "")
-            else:
-                chk.violation("probe-" + u, replay_files(prog["files"], meta, {"build.log": log}),
-                              "fixed probe %s of finding %s fails: %s" % (u, fid, why))
+            r, _ = run.run_llgo(d, exe, tag=u, extra={"C19_PROBE": u})
+            got = dict(run.parse_R(r.err)).get(u)
+            ok = r.kind == "exit" and r.rc == 0 and got == prog["expected"][u]
+            res[u] = (ok, "%s rc=%s, printed %s, expected %s%s" % (
+                r.kind, r.rc, run.undump(got) if got is not None else "<nothing>", run.undump(prog["expected"][u]),
+                "" if r.kind == "exit" and r.rc == 0 else "\n" + "\n".join(l for l in r.err.split("\n") if not l.startswith("R "))[-600:]),
+                r.kind == "timeout")
+    return tag, prog, units, meta, rc, log, res
 
 
-run_probes()
+def absorb_probe(tag, prog, units, meta, rc, log, res):
+    for u in units:
+        fid = PROBE_OF[u]
+        chk.cov["evaluations"] += 1
+        if rc == -999:
+            chk.inconclusive += 1
+            continue
+        if rc != 0:
+            ok, why, tmo = False, "llgo cannot build the probe program:\n" + log[-1200:], False
+        else:
+            ok, why, tmo = res[u]
+        if tmo:
+            chk.inconclusive += 1
+            continue
+        if ok:
+            continue
+        if chk.is_open(fid):
+            chk.known(fid, "")
+        else:
+            violate("probe-" + u, replay_files(prog["files"], meta, {"build.log": log}),
+                    "fixed probe %s of finding %s fails: %s" % (u, fid, why))
+
 
 # ------------------------------------------------------------------ random programs
 
@@ -149,7 +154,14 @@ tot = {"units_compared": 0, "call_records_compared": 0, "import_records": 0, "ex
 shape = {}
 nviol = 0
 build_timeouts = 0
-for idx, prog, meta, berr, out in core.pmap(one_program, list(range(NPROG)), workers=WORKERS):
+def job(j):
+    return probe_job(j) if isinstance(j, tuple) else one_program(j)
+
+
+results = core.pmap(job, PROBE_JOBS + list(range(NPROG)), workers=WORKERS)
+for pr in results[:len(PROBE_JOBS)]:
+    absorb_probe(*pr)
+for idx, prog, meta, berr, out in results[len(PROBE_JOBS):]:
     key = "%dmod/%dpkg" % (len(meta["mods"]), meta["npkgs"])
     shape[key] = shape.get(key, 0) + 1
     if berr:
@@ -162,7 +174,7 @@ for idx, prog, meta, berr, out in core.pmap(one_program, list(range(NPROG)), wor
             core.broken("generated program %d is not valid Go:\n%s" % (idx, log[-1500:]))
         if nviol < MAXVIOL:
             nviol += 1
-            chk.violation("p%03d-build" % idx, replay_files(prog["files"], meta, {"build.log": log}),
+            violate("p%03d-build" % idx, replay_files(prog["files"], meta, {"build.log": log}),
                           "llgo cannot build generated program %d (python3 runs driver.py fine):\n%s" % (idx, log[-1500:]))
         continue
     probs, stats, res, plog, dlog = out
@@ -192,7 +204,7 @@ for idx, prog, meta, berr, out in core.pmap(one_program, list(range(NPROG)), wor
             text += "\n(replay reduced to unit %s; %d problems in the full program)" % (uid, len(probs))
     if nviol < MAXVIOL:
         nviol += 1
-        chk.violation("p%03d-%s%s" % (idx, k, "-" + uid if uid else ""),
+        violate("p%03d-%s%s" % (idx, k, "-" + uid if uid else ""),
                       replay_files(files, m2, {"stderr.llgo.txt": res.err[-200000:], "log.llgo.txt": plog[-200000:], "log.python3.txt": dlog[-200000:],
                                                "problems.txt": "\n\n".join("[%s] %s" % (a, c) for a, b, c in probs[:40])}),
                       "program %d (%s, modules %s): %s" % (idx, key, ",".join(meta["mods"]), text))
